@@ -5,10 +5,10 @@ from progscript import run_script, native_script
 Q2 = [0, 1]
 TPLS = [
     Tpl("declare", "DECLARE {n} BIT[{len}]", n=("str", ["ro", "theta"]), len=("int", [1, 2])),
-    Tpl("defframe", 'DEFFRAME {q} "{f}":\n\tDIRECTION: "{d}"', q=("int", Q2), f=("str", ["rf", "ro"]), d=("str", ["tx", "rx"])),
+    Tpl("defframe", 'DEFFRAME {q} "{f}":\n\t{k}: "{d}"', q=("int", Q2), f=("str", ["rf", "ro"]), k=("str", ["DIRECTION", "HARDWARE-OBJECT"]), d=("str", ["tx", "rx"])),
     Tpl("defwaveform", "DEFWAVEFORM {w}(%{p}):\n\t1.0, 2.0", w=("str", ["wa", "wb"]), p=("str", ["x", "y"])),
-    Tpl("defcal", "DEFCAL X {q}:\n\tPRAGMA {v}", q=("int", Q2), v=("str", ["va", "vb"])),
-    Tpl("defcalmeasure", "DEFCAL MEASURE {q} addr:\n\tPRAGMA {v}", q=("int", Q2), v=("str", ["va", "vb"])),
+    Tpl("defcal", "DEFCAL X {q}:\n\tY {b}", q=("int", Q2), b=("int", [0, 1, 2])),
+    Tpl("defcalmeasure", "DEFCAL MEASURE {q} addr:\n\tY {b}", q=("int", Q2), b=("int", [0, 1, 2])),
     Tpl("defgate", "DEFGATE {g} AS PERMUTATION:\n\t{a}, {b}", g=("str", ["ga", "gb"]), a=("int", [0, 1]), b=("int", [0, 1])),
     Tpl("defcircuit", "DEFCIRCUIT {c}:\n\tPRAGMA {v}", c=("str", ["ca", "cb"]), v=("str", ["va", "vb"])),
     Tpl("pragma", 'PRAGMA {pn} {e} "{sig}"', pn=("str", ["EXTERN", "OTHER"]), e=("str", ["fa", "fb"]), sig=("str", ["(x : INTEGER)", "(y : REAL)"])),
